@@ -164,6 +164,46 @@ def d17_cases():
         out.append([H264_CFG, fr, 0, 0, 0])
     return out
 
+def gen_fan(rng, hs):
+    """several clients of one stream: the same tag objects go to the GOP cache and to every attached
+    client's queue; clients attach at different points (served from the cache) and their routines run
+    in an order chosen by the case"""
+    while True:
+        cfg = gen_cfg(rng, hs)
+        known = (len(cfg[3]) > 0 and len(cfg[1]) > 0 and len(cfg[2]) > 0 and len(cfg[4]) == 21) if cfg[0] \
+            else (len(cfg[1]) >= 4 and len(cfg[2]) > 0)
+        if known:
+            break
+    hevc = cfg[0]
+    t = rng.choice([5000, 1000, 86400000, (1 << 32) - 300, (1 << 31) - 100, rng.randrange(1, 1 << 33)])
+    frames = []
+    for i in range(rng.randint(6, 22)):
+        r = rng.random()
+        if r < 0.7:
+            t += rng.choice([33, 40, 40, 66])
+            key = rng.random() < 0.3 or i == 0
+            b0 = ((19 if key else 1) << 1) if hevc else (0x65 if key else 0x41)
+            frames.append([0, t * MS, (t + rng.choice([0, 0, 40])) * MS, bytes([b0, rng.randrange(256), i])])
+        else:
+            a = t + rng.choice([0, -10, 15, -23])
+            frames.append([1, a * MS, a * MS, bytes([0x21, i])])
+    ntags = (3 if cfg[9] else 2) + sum(1 for f in frames if f[0] == 0 or cfg[9])
+    nclients = rng.choice([2, 2, 3, 4])
+    attach_at = sorted(rng.randrange(0, ntags) for _ in range(nclients))
+    if rng.random() < 0.5:
+        attach_at[0] = 0
+    events, attached = [], 0
+    for i in range(ntags):
+        while attached < nclients and attach_at[attached] <= i:
+            events.append([1]); attached += 1
+        events.append([0, i])
+        for _ in range(rng.choice([0, 1, 1, 2, 3])):
+            if attached:
+                events.append([2, rng.randrange(attached), rng.choice([1, 1, 2, 3, 5])])
+    while attached < nclients:
+        events.append([1]); attached += 1
+    return [cfg, frames, events]
+
 def run(ck):
     if not ck.prepare():
         return ck.finish(rule="build failed")
@@ -177,6 +217,10 @@ def run(ck):
     bad = [gen_case(rng, hs, 10, False, malformed=True) for _ in range(n // 6)]
     ck.stream("malformed", bad, "C08_run", "C08", "C08_ok", project=project,
               nontrivial=lambda c: True, sig=lambda c, e, o: "flv-stream-malformed", sample=2)
+    fans = [gen_fan(rng, hs) for _ in range(1500 if ck.thorough else 250)]
+    ck.stream("fanout", fans, "C08_fan_run", "C08fan", "C08_fan_ok", project=project,
+              nontrivial=lambda c: sum(1 for e in c[2] if e[0] == 1) >= 2 and sum(1 for e in c[2] if e[0] == 2) >= 3,
+              sig=lambda c, e, o: "flv-shared-tags", sample=2)
     # the oracle must reject the unrepaired arithmetic on the D17 witnesses
     wit = [vlib.vs(c) for c in d17_cases() if c[4] == 1]
     try:
